@@ -53,10 +53,11 @@ Validate(tc, st) ==
     ELSE IF tc.code # ExpCode(tc) THEN "invalid_exit_code"
     ELSE IF Accepts(tc) THEN "success" ELSE "malformed_output"
 
-\* a document that cannot be read / parsed, or a shell that cannot be started, aborts the whole run
+\* a document that cannot be read / parsed, or a shell that cannot be started, aborts the whole run before anything is executed
 StartDoc ==
     /\ pc = "start"
-    /\ IF sc.docs[d].fault # "no" \/ sc.noshell
+    \* all documents are read and parsed before the first one is executed (test.rs: find_and_parse up front)
+    /\ IF (\E j \in 1..NDocs : sc.docs[j].fault # "no") \/ sc.noshell
        THEN /\ exit' = 1 /\ pc' = "done"
             /\ UNCHANGED <<sc, d, k, clock, lim, isGlobal, status, outs, res, ran, wall>>
        ELSE /\ pc' = IF Len(Cur) = 0 THEN "enddoc" ELSE "pick"
